@@ -1,6 +1,6 @@
 """C03 A hash does not depend on the history of the VM, cache or dataset objects."""
 import astq
-from rules import aes, argon, decode, driver
+from rules import aes, argon, decode, driver, jitcross
 
 LEVEL = 'other'
 TECHNIQUE = 'CFG dominance on the drivers, definite-assignment of per-program VM state, decoder def-use path enumeration, guard/capture agreement of the set_cache shortcut, sibling comparison of call sequences'
@@ -26,3 +26,4 @@ def run(ctx, R):
     decode.rule_defuse(ctx, R, F)
     aes.rule_fused(ctx, R, F)
     argon.rule_skeleton(ctx, R, F)
+    jitcross.rule_v2sym_a64(ctx, R)
